@@ -276,6 +276,8 @@ def gen_cases(rng, tier):
         if r.chance(30):
             p = [["scope", r.sample(PROBE_NAMES, r.randint(0, 3)), prog(1) + [["raise"]]]] + p
         cases.append({"kind": "scope", "glob": r.sample(PROBE_NAMES, r.randint(0, 2)), "prog": p + [["observe"]]})
+        if any(c_[0] in ("scope", "scope_extend", "prepared") for c_ in p) and "raise" in json.dumps(p) and r.chance(50):
+            cases[-1]["base_exc"] = True
     return cases
 
 
@@ -361,6 +363,10 @@ class _Boom(Exception):
     pass
 
 
+class _BoomBase(BaseException):
+    """a scope may also be left by something that is not an Exception (KeyboardInterrupt, SystemExit, GeneratorExit)"""
+
+
 def run_real(case):
     import flow.record.base as B
     k = case["kind"]
@@ -428,7 +434,7 @@ def run_real(case):
                     elif c[0] == "observe":
                         trace.append(_behavioural_ignored())
                     elif c[0] == "raise":
-                        raise _Boom()
+                        raise (_BoomBase if case.get("base_exc") else _Boom)()
                     elif c[0] == "scope":
                         with B.ignore_fields_for_comparison(list(c[1])):
                             run(c[2])
@@ -441,7 +447,7 @@ def run_real(case):
             try:
                 run(case["prog"])
                 ex = "normal"
-            except _Boom:
+            except (_Boom, _BoomBase):
                 ex = "raised"
             return {"trace": trace, "exit": ex, "glob": _behavioural_ignored(),
                     "global": sorted(x for x in B.IGNORE_FIELDS_FOR_COMPARISON)}
